@@ -9,7 +9,7 @@ git apply "$patch" || { echo "patch does not apply"; exit 2; }
 mkdir -p /tmp/evsave && cp /verif/evidence/*.json /tmp/evsave/ 2>/dev/null
 cd /verif
 for p in "$@"; do
-  out=$(./check "$p" 2>&1 | grep -E "^VIOLATION|^OK|^KNOWN" | tr '\n' ' ')
+  out=$(VERIF_DEV_SKIP_PROOFS=${VERIF_DEV_SKIP_PROOFS:-0} ./check "$p" 2>&1 | grep -E "^VIOLATION|^OK|^KNOWN" | tr '\n' ' ')
   echo "$p: $out"
 done
 cp /tmp/evsave/*.json /verif/evidence/ 2>/dev/null; rm -rf /tmp/evsave
